@@ -86,3 +86,25 @@ def dump_graph(module: str, cfg: str, name: str, specdir=None, timeout=1800):
         return Graph(text), r
     finally:
         common.cleanup(wd)
+
+
+def parse_sim_file(path):
+    """one behaviour written by `tlc -simulate file=...`: list of (action label with parameters, state)"""
+    txt = open(path).read()
+    out = []
+    for m in re.finditer(r"\\\* <(.*?) line \d+, col \d+ to line \d+, col \d+ of module \w+>\nSTATE_\d+ == \n(.*?)(?=\n\n|\Z)", txt, re.S):
+        out.append((m.group(1), parse_state(m.group(2))))
+    return out
+
+
+def simulate(module, cfg, num, depth, seed, name, specdir=None, timeout=1800):
+    """behaviours from TLC's simulation mode (random walks through the specification)"""
+    import glob
+    wd = common.workdir("sim-" + name)
+    try:
+        r = common.run_tlc(module, cfg, workers=1, specdir=specdir, metaname="sim-" + name, timeout=timeout,
+                           extra=["-simulate", f"file={wd}/tr,num={num}", "-depth", str(depth), "-seed", str(seed)])
+        behs = [parse_sim_file(f) for f in sorted(glob.glob(f"{wd}/tr_*"))]
+        return [b for b in behs if len(b) > 1], r
+    finally:
+        common.cleanup(wd)
